@@ -140,13 +140,17 @@ struct DtxSim {
     if (tiny && in_silence && silent) onset_seen = true;   // whatever made it tiny: the onset clause only speaks about the first one
     // ---- O5: DTX disabled => no packet of two bytes or fewer (bitrate and buffer allow well over three bytes)
     long eff_rate = m_bitrate == OPUS_AUTO || m_bitrate == OPUS_BITRATE_MAX ? 1000000 : std::max(500, m_bitrate);
-    bool toc_only_regime = d48 > 960 && (eff_rate < 2400 || max_bytes * (48000.0 / d48) < 300);   // long frames, low budget: every packet is TOC-only, DTX or not
+    // long frames, low budget: every packet is TOC-only, DTX or not (the library's test, with its integer frame rate and, in CBR, the
+    // packet size in place of the buffer size)
+    long frame_rate_i = 48000 / d48;
+    long eff_max = m_vbr || m_bitrate == OPUS_AUTO || m_bitrate == OPUS_BITRATE_MAX ? max_bytes : std::min<long>(max_bytes, (long)((12.0 * eff_rate / 8 + 6.0 * 48000 / d48) / (12.0 * 48000 / d48)));
+    bool toc_only_regime = d48 > 960 && (eff_rate < 2400 || eff_max * frame_rate_i < 300);
     // (stated for "at least three bytes per frame"; for frames longer than 20 ms the library deliberately asks for more - 2400 bit/s and
     //  300 buffer bytes per second - before it codes anything but TOC-only packets: a known finding with exactly that signature)
     if (!m_dtx && tiny && bytes_per_frame >= 3.0 - 1e-9 && max_bytes >= 3) {
       long eff = m_bitrate == OPUS_AUTO || m_bitrate == OPUS_BITRATE_MAX ? 1000000 : std::max(500, m_bitrate);
       double frame_rate = 48000.0 / d48;
-      bool long_frame_rule = d48 > 960 && (eff < 2400 || max_bytes * frame_rate < 300);
+      bool long_frame_rule = toc_only_regime; (void)eff; (void)frame_rate;
       REPORT(run, prop, long_frame_rule ? "tiny_packet_with_dtx_disabled_long_frame_below_2400bps" : "tiny_packet_with_dtx_disabled", "ret=%d frame_ms=%.1f bitrate=%d (%.2f bytes/frame) max_bytes=%d toc=%02x t=%.0fms", ret, d48 / 48.0, m_bitrate, bytes_per_frame, max_bytes, pkt[0], t0 / 48.0);
     }
     if (!m_dtx && !tiny) run.count("nodtx_checked");
